@@ -29,7 +29,10 @@ Inductive ccase :=
 | CCfg (flush_timeout min_size max_size : Z) (valid : bool)  (* BatchConfig.Validate() == nil *)
 | CBat (min_size max_size slack : Z) (evs : list tbev)
        (batches : list (list Z))                             (* exported batches in start order: ids *)
-       (fired : list (Z * Z)).                               (* OnDone calls: (request index, error? 1/0) in order *)
+       (fired : list (Z * Z))                                (* OnDone calls: (request index, error? 1/0) in order *)
+| CBatC (min_size max_size slack workers : Z) (evs : list tbev)  (* worker contention: export results name the batch *)
+        (batches : list (list Z))                            (* by its FIRST ID; batches are compared as a set     *)
+        (fired : list (Z * Z)).
 
 (* ---- decoding --------------------------------------------------------------------------------- *)
 Definition sizer_of (z : Z) : sizer := if z =? 0 then Items else Bytes.
@@ -131,6 +134,27 @@ Definition model_bat (slack min max : Z) (evs : list tbev) : list (list Z) * lis
   let '(st, started) := brun_log slack min max evs (b_init, O) [] in
   (started, map (fun p : nat * bool => (Z.of_nat (fst p), if snd p then 1 else 0)) (b_fired st)).
 
+(* worker contention: translate "(2, [first id], err)" into "(2, [batch number], err)" by running the model *)
+Fixpoint find_fly (key : Z) (l : list (nat * lreq * list dref)) : option nat :=
+  match l with
+  | [] => None
+  | (b, r, _) :: t => if hd 0 (fst r) =? key then Some b else find_fly key t
+  end.
+
+Fixpoint tr_evs (slack min max : Z) (es : list tbev) (sn : @bstate lreq * nat) : list tbev :=
+  match es with
+  | [] => []
+  | e :: es' =>
+    let '(k, ids, x) := e in
+    let e' := if k =? 2 then
+                match find_fly (hd 0 ids) (b_flying (fst sn)) with
+                | Some b => (2, [Z.of_nat b], x)
+                | None => (2, [Z.of_nat (b_nbatch (fst sn))], x)      (* no such batch in flight: a no-op result *)
+                end
+              else e in
+    e' :: tr_evs slack min max es' (bstep (lsplit slack max) lsizeof min sn (bev_of e'))
+  end.
+
 (* the specification's verdict on the error of request i's callback (Model.erun), for the same history *)
 Definition spec_err (slack min max : Z) (evs : list tbev) (i : Z) : Z :=
   if snd (erun (lsplit slack max) lsizeof min (map bev_of evs)) (Z.to_nat i) then 1 else 0.
@@ -149,6 +173,12 @@ Definition check_case (c : ccase) : bool :=
     list_eqb lz_eqb mb bs && list_eqb pz_eqb mf fired &&
     (* every OnDone the IMPLEMENTATION made carries the error the specification demands *)
     forallb (fun p => Z.eqb (snd p) (spec_err sl mn mx evs (fst p))) fired
+  | CBatC mn mx sl _ evs bs fired =>
+    let evs' := tr_evs sl mn mx evs (b_init, O) in
+    let '(mb, mf) := model_bat sl mn mx evs' in
+    forallb (fun b => existsb (lz_eqb b) mb) bs && Nat.eqb (length mb) (length bs) &&
+    list_eqb pz_eqb mf fired &&
+    forallb (fun p => Z.eqb (snd p) (spec_err sl mn mx evs' (fst p))) fired
   end.
 
 (* model output, for replay files *)
@@ -163,4 +193,5 @@ Definition model_out (c : ccase) : cout :=
   | CSov l => OSov (map (fun p => (fst p, delta Bytes (fst p))) l)
   | CCfg ft mn mx _ => OCfg (batch_cfg_valid ft mn mx)
   | CBat mn mx sl evs _ _ => OBat (model_bat sl mn mx evs)
+  | CBatC mn mx sl _ evs _ _ => OBat (model_bat sl mn mx (tr_evs sl mn mx evs (b_init, O)))
   end.
